@@ -32,6 +32,8 @@ def check(run):
     from .c05 import _memo_paths
     _memo_paths(run, P, P.func("uxarray/grid/grid.py:Grid.compute_face_areas"))
     params = [p for p in f.params() if p != "self"]
+    _options_forwarded(run, P)
+    _data_not_modified(run, P)
     # (b) einsum
     ein = [c for c in ast.walk(f.node) if isinstance(c, ast.Call) and (dotted(c.func) or [""])[-1] == "einsum"]
     c0 = "UxDataArray.integrate:einsum"
@@ -130,3 +132,89 @@ def check(run):
                 run.holds("F-PATH/result-construction", cc, where(f, ctor), f"{k}={v}")
             else:
                 run.violation("F-PATH/result-construction", cc, where(f, ctor), f"result built with {k}={kw.get(k)}; the property requires {k}={v}")
+
+
+def _options_forwarded(run, P):
+    """quadrature_rule and order of every integrate entry point reach the area computation in their own roles: a parameter that is accepted but never read, or
+    that is handed to the delegate under the other option's name/position, makes the integral use the default rule/order whatever the caller asked for."""
+    OPTS = ("quadrature_rule", "order")
+    SIG = {"compute_face_areas": ["quadrature_rule", "order", "latlon"], "integrate": ["quadrature_rule", "order"], "calculate_total_face_area": ["quadrature_rule", "order"]}
+    for key in (f"{DA}:UxDataArray.integrate", "uxarray/core/dataset.py:UxDataset.integrate"):
+        f = P.func(key)
+        ps = [p for p in f.params() if p in OPTS]
+        loads = {n.id for n in ast.walk(f.node) if isinstance(n, ast.Name) and isinstance(n.ctx, ast.Load)}
+        for p_ in ps:
+            c = f"{f.key}:option-forwarded[{p_}]"
+            if p_ not in loads:
+                run.violation("F-PATH/area-provenance", c, where(f), f"parameter {p_} is accepted but never read: the areas are computed with the default {p_} whatever the caller requests")
+                continue
+            roles = []
+            for call in ast.walk(f.node):
+                if isinstance(call, ast.Call) and (dotted(call.func) or [""])[-1] in SIG:
+                    sig_ = SIG[(dotted(call.func) or [""])[-1]]
+                    for i, a in enumerate(call.args):
+                        if isinstance(a, ast.Name) and a.id == p_ and i < len(sig_):
+                            roles.append((call, sig_[i]))
+                    for k in call.keywords:
+                        if isinstance(k.value, ast.Name) and k.value.id == p_ and k.arg:
+                            roles.append((call, k.arg))
+            wrong = [(cl, r) for cl, r in roles if r != p_]
+            if wrong:
+                run.violation("F-PATH/area-provenance", c, where(f, wrong[0][0]), f"{p_} is passed to {norm(wrong[0][0].func)} in the role of {wrong[0][1]}")
+            elif roles:
+                run.holds("F-PATH/area-provenance", c, where(f, roles[0][0]), f"{p_} forwarded as {p_}")
+            else:
+                run.incomplete("F-PATH/area-provenance", c, where(f), f"{p_} is read but not seen to reach compute_face_areas / integrate")
+
+
+def _data_not_modified(run, P):
+    """integrate() only reads the variable: no in-place operation (x *= a, x[...] = v, out=x) on anything that is a view of self.values / self.data (np.asarray, .values,
+    .data, reshape, ravel, basic slices keep the buffer; astype/np.array/.copy()/arithmetic make a new one)."""
+    from ..astutil import LocalDefs
+    VIEW = {"asarray", "asanyarray", "reshape", "ravel", "squeeze", "transpose", "atleast_1d", "atleast_2d", "expand_dims", "view"}
+    for key in (f"{DA}:UxDataArray.integrate", "uxarray/core/dataset.py:UxDataset.integrate"):
+        f = P.func(key)
+        selfn = f.params()[0]
+        defs = LocalDefs(f.node)
+
+        def is_view_of_data(e, depth=0, seen=()):
+            if depth > 6:
+                return False
+            if isinstance(e, ast.Attribute):
+                if e.attr in ("values", "data", "T"):
+                    return (isinstance(e.value, ast.Name) and e.value.id == selfn) or is_view_of_data(e.value, depth + 1, seen) or (isinstance(e.value, ast.Subscript) and isinstance(e.value.value, ast.Name) and e.value.value.id == selfn)
+                return False
+            if isinstance(e, ast.Name):
+                if e.id in seen:
+                    return False
+                return any(is_view_of_data(v, depth + 1, seen + (e.id,)) for v, _i, _l in defs.defs.get(e.id, []))
+            if isinstance(e, ast.Subscript):
+                sl = e.slice
+                basic = isinstance(sl, (ast.Slice, ast.Constant)) or (isinstance(sl, ast.Tuple) and all(isinstance(x, (ast.Slice, ast.Constant)) for x in sl.elts))
+                return basic and is_view_of_data(e.value, depth + 1, seen)
+            if isinstance(e, ast.Call):
+                nm = (dotted(e.func) or [""])[-1]
+                if nm in VIEW:
+                    src = e.args[0] if (e.args and isinstance(e.func, ast.Attribute) and isinstance(e.func.value, ast.Name) and e.func.value.id in ("np", "numpy")) else (e.func.value if isinstance(e.func, ast.Attribute) else None)
+                    return src is not None and is_view_of_data(src, depth + 1, seen)
+            return False
+        c = f"{f.key}:data-not-modified"
+        bad = None
+        for st in iter_stmts(f.node.body):
+            tgt = None
+            if isinstance(st, ast.AugAssign):
+                tgt = st.target.value if isinstance(st.target, ast.Subscript) else st.target
+            elif isinstance(st, ast.Assign) and isinstance(st.targets[0], ast.Subscript) and not (isinstance(st.targets[0].value, ast.Attribute) and st.targets[0].value.attr == "_ds"):
+                tgt = st.targets[0].value
+            if tgt is not None and is_view_of_data(tgt):
+                bad = bad or st
+            for cl in ast.walk(st):
+                if isinstance(cl, ast.Call):
+                    o = next((k.value for k in cl.keywords if k.arg == "out"), None)
+                    if o is not None and is_view_of_data(o):
+                        bad = bad or st
+        if bad is not None:
+            run.violation("GRIDBUF/write", c, where(f, bad), f"{norm(bad)[:70]} writes into the data variable's own buffer (np.asarray / .values do not copy float64 data): after integrate() the variable holds value x area, "
+                          "so a second integration, or any later use of the data, is wrong")
+        else:
+            run.holds("GRIDBUF/write", c, where(f), "no in-place operation on a view of the variable's data")
